@@ -217,10 +217,13 @@ class C14(Prop):
                 yield self.gen_take(rng)
             elif r < 0.38:
                 dd = gen_dataset(rng, nans=rng.random() < 0.5)
-                by = rng.choice(["name", "pos", "name", "pos", "neg", "default"])
+                by = rng.choice(["name", "pos", "name", "pos", "neg", "default", "none"])
                 order = ds_dims(dd)
                 d = order[0] if by == "default" else rng.choice(dd["dims"])
                 c = {"op": "reduce", "ds": dd, "dim": d, "fn": rng.choice(["mean", "sum", "var", "std", "median"]), "by": by}
+                if by == "none":
+                    # axis=None: every variable - the 0-d ones too - is reduced over all its cells
+                    c["dim"] = None
                 if rng.random() < 0.5:
                     c["skipna"] = rng.random() < 0.6
                 yield c
@@ -514,7 +517,7 @@ class C14(Prop):
                 return self.plan_take(c, ds)
             if op == "reduce":
                 kw = {} if c.get("skipna") is None else {"skipna": c["skipna"]}
-                akw = {} if c.get("by") == "default" else {"axis": self.key_of(c, ds)}
+                akw = {} if c.get("by") == "default" else {"axis": None} if c.get("by") == "none" else {"axis": self.key_of(c, ds)}
                 return (lambda: getattr(ds, c["fn"])(**akw, **kw)), per_var(lambda v: getattr(v, c["fn"])(axis=c["dim"], **kw)), False
             if op == "take_axis":
                 kind = c["ds"]["axes"][c["dim"]]["kind"]
@@ -698,6 +701,8 @@ class C14(Prop):
         op = c["op"]
         if op not in self.LEAN_OPS or self.unstable_sort(c):
             return True
+        if op == "reduce" and c.get("by") == "none":
+            return True        # (`DSV.reduceDs` mirrors the reduction along a named dimension)
         if op == "take" and (c["second"] or c["spelling"] in ("take_tuple", "take_tol", "nloc") or c.get("names") is not None):
             return True
         if op == "take_axis" and c.get("indexing") == "position":
